@@ -1,6 +1,7 @@
 package scen
 
 import (
+	"time"
 	"context"
 	"encoding/json"
 	"fmt"
@@ -143,6 +144,7 @@ func loadKV(disk *simkv.Disk, name string, gd *model.GraphData) (gdbi.GraphDB, g
 type travOpts struct {
 	CancelAfter int // cancel the request context after this many rows (-1: never)
 	StopReading bool // after cancelling, the client stops reading (a client that went away)
+	DeadlineUs  int  // > 0: the request context carries a deadline this far (simulated) in the future instead of being cancelled by the client; after CancelAfter rows the client waits until the deadline has passed
 	WriteAfter  int  // > 0: after this many rows the reading client issues a write call on the same graph (a delete of an absent vertex: exclusive on whatever lock deletes take, no change of state), then goes on reading
 	Backend     func(g gdbi.GraphInterface) gdbi.GraphInterface // optional decorator
 	Compile     func(g gdbi.GraphInterface, stmts []*gripql.GraphStatement) (gdbi.Pipeline, error)
@@ -199,6 +201,9 @@ func runTraversal(x *Exec, cfg simrt.Config, gd *model.GraphData, stmts []*gripq
 				return
 			}
 			ctx, cancel := context.WithCancel(context.Background())
+			if o.DeadlineUs > 0 {
+				ctx, cancel = context.WithTimeout(context.Background(), time.Duration(o.DeadlineUs)*time.Microsecond)
+			}
 			defer cancel()
 			res := pipeline.Run(ctx, pipe, work)
 			n := 0
@@ -211,13 +216,19 @@ func runTraversal(x *Exec, cfg simrt.Config, gd *model.GraphData, stmts []*gripq
 				}
 				tr.Rows = append(tr.Rows, CanonRow(row))
 				n++
+				simrt.Progress() // a delivered row is progress (the client may be draining a full buffer on its own)
 				if o.WriteAfter > 0 && n == o.WriteAfter {
 					simrt.Probe("reading client issued a write mid-stream")
 					g.DelVertex("no-such-vertex-c07")
 				}
 				if o.CancelAfter >= 0 && n == o.CancelAfter {
-					simrt.Probe("client cancelled mid-stream")
-					cancel()
+					if o.DeadlineUs > 0 {
+						simrt.Probe("request deadline passed mid-stream")
+						sleepSim(2 * o.DeadlineUs) // the deadline expires while the client is away
+					} else {
+						simrt.Probe("client cancelled mid-stream")
+						cancel()
+					}
 					if o.StopReading {
 						return
 					}
